@@ -1137,7 +1137,7 @@ func c15Run(t *testing.T, prop string) {
 	visited := c15LoadVisited(os.Getenv("VERIF_VISITED"))
 	m := len(e.menu)
 	panics := map[string]int{}
-	k := 0
+	k, mine := 0, 0
 	for si := range frontier {
 		st := &frontier[si]
 		for j := 0; j < m; j++ {
@@ -1145,7 +1145,8 @@ func c15Run(t *testing.T, prop string) {
 			if !kit.Mine(si*m + j) {
 				continue
 			}
-			if k%64 == 0 && rep.Expired() {
+			// (the counter of this worker's own transitions: k%64 == 0 is only ever true for the last shard)
+			if mine++; mine%64 == 0 && rep.Expired() {
 				return
 			}
 			path := append(append(make([]int, 0, len(st.Path)+1), st.Path...), j)
